@@ -424,7 +424,7 @@ func c16Relay(c *Ctx) {
 	client := &http.Client{Transport: &http.Transport{DisableKeepAlives: true}, Timeout: 60 * time.Second,
 		CheckRedirect: func(*http.Request, []*http.Request) error { return http.ErrUseLastResponse }}
 
-	faults := []string{"none", "none", "none", "refuse", "close-accept", "close-after-request", "rst-after-request", "cut-head", "garbage-head", "cut-body", "cut-before-last-chunk", "stall", "cancel-before-head", "cancel-mid-body", "stall-mid-head"}
+	faults := []string{"none", "none", "none", "refuse", "close-accept", "close-after-request", "rst-after-request", "cut-head", "garbage-head", "cut-body", "cut-before-last-chunk", "stall", "cancel-before-head", "cancel-mid-body", "stall-mid-head", "bad-address"}
 	n := c.N(len(faults)*50, len(faults)*1200)
 	c.Cases("case", n, func(i int, r *rand.Rand) {
 		p := c16Plan{Fault: faults[i%len(faults)], NHeaders: r.IntN(11), RST: r.IntN(2) == 0}
@@ -512,6 +512,10 @@ func c16Relay(c *Ctx) {
 		defer cancel()
 		req, _ := http.NewRequestWithContext(ctx, "GET", proxy.URL+"/r?id="+id, nil)
 		req.Header.Set("X-Target", back.l.Addr().String())
+		if p.Fault == "bad-address" {
+			// a backend address that cannot even be dialled (the error carries no socket address)
+			req.Header.Set("X-Target", pick(r, []string{"127.0.0.1:99999", "127.0.0.1:70000", "[::1]:123456"}))
+		}
 		if p.Fault == "stall-mid-head" {
 			req.Header.Set("X-Stall", "idle")
 		}
@@ -630,7 +634,7 @@ func c16Relay(c *Ctx) {
 					return
 				}
 			}
-		case "refuse", "close-accept", "close-after-request", "rst-after-request":
+		case "refuse", "close-accept", "close-after-request", "rst-after-request", "bad-address":
 			if status != http.StatusBadGateway {
 				key := "mapping/no-response-502"
 				if strings.Contains(errTxt, "server closed idle connection") {
